@@ -38,6 +38,9 @@ pub enum Kind {
     /// two deviations: the merge thread is preempted at its `m_idx`-th storage operation by the action, and
     /// afterwards the k-th storage operation of the updater (finishing / reconciling the merge) fails once
     MergeVsOpsFault { action: usize, m_idx: usize },
+    /// wait_merging_threads() is blocked on a running merge; a second writer is attempted (on another Index
+    /// handle of the directory) in front of every storage operation of the merge thread: it must be refused
+    WaitMergingVsNewWriter,
     /// two producer threads share one writer: producer A is preempted at each of its hook points (between
     /// drawing an opstamp and enqueueing the operation) by the whole program of producer B
     Producers { a: usize, b: usize },
@@ -129,6 +132,7 @@ pub fn scenarios(thorough: bool) -> Vec<Kind> {
             v.push(Kind::MergeVsOpsFault { action, m_idx });
         }
     }
+    v.push(Kind::WaitMergingVsNewWriter);
     for a in 0..producer_programs().len() {
         for b in 0..producer_programs_b().len() {
             v.push(Kind::Producers { a, b });
@@ -248,6 +252,7 @@ pub fn run(kind: &Kind, point: Option<&Point>) -> RunResult {
         Kind::MergeVsOps { action } => merge_vs_ops(*action, point, None),
         Kind::MergeVsOpsFault { action, m_idx } => merge_vs_ops(*action, point, Some(*m_idx)),
         Kind::Producers { a, b } => producers(*a, *b, point),
+        Kind::WaitMergingVsNewWriter => wait_merging_vs_new_writer(point),
     }
 }
 
@@ -754,6 +759,70 @@ fn commit_vs_merge_end(point: Option<&Point>) -> RunResult {
     res
 }
 
+fn wait_merging_vs_new_writer(point: Option<&Point>) -> RunResult {
+    use Step::*;
+    let mut res = RunResult::default();
+    crate::presched::set_flush(None);
+    let cfg = WlConfig { workers: 1, dedicated_compressor: false };
+    let sim = SimDirectory::new();
+    let mut d = Driver::new(sim.clone(), &cfg);
+    if d.create_index().is_err() || d.open_writer().is_err() {
+        res.violations.push(("machinery".into(), "setup failed".into()));
+        return res;
+    }
+    if !steps_ok(&mut d, &[Add(1), Commit, Add(2), Commit], &mut res.violations, "setup") {
+        return res;
+    }
+    let before = all_counts(&sim);
+    let ids = d.index.as_ref().unwrap().searchable_segment_ids().unwrap_or_default();
+    let attempt: Arc<Mutex<Option<Result<(), String>>>> = Arc::new(Mutex::new(None));
+    let action = {
+        let (sim, attempt) = (sim.clone(), attempt.clone());
+        move || {
+            let r = (|| {
+                let index2 = Index::open(sim.clone()).map_err(|e| format!("open: {e:?}"))?;
+                let w: tantivy::IndexWriter = index2.writer_with_options(writer_options(&WlConfig { workers: 1, dedicated_compressor: false })).map_err(|e| format!("{e:?}"))?;
+                drop(w);
+                Ok(())
+            })();
+            *attempt.lock().unwrap() = Some(r);
+        }
+    };
+    let pre = point.map(|p| Preempt::arm(&sim, &p.tid, p.idx, Box::new(action)));
+    let w = d.writer.take().unwrap();
+    // the merge is started and the writer is consumed by wait_merging_threads while it runs
+    let _fut = {
+        let mut w = w;
+        let f = w.merge(&ids);
+        let r = w.wait_merging_threads();
+        if let Err(e) = r {
+            res.violations.push(("call_fails".into(), format!("wait_merging_threads: {e:?}")));
+        }
+        f
+    };
+    res.ranges = ranges_between(&before, &all_counts(&sim));
+    if let Some(p) = pre {
+        let o = p.finish();
+        if o.fired {
+            match attempt.lock().unwrap().clone() {
+                Some(Ok(())) => res.violations.push((
+                    "second_writer_during_wait_merging_threads".into(),
+                    format!("while wait_merging_threads() was blocked on a merge parked at {:?}, a second writer could be created on another Index handle of the directory", o.at_op),
+                )),
+                Some(Err(e)) if !e.contains("LockBusy") && !e.contains("LockFailure") => res.violations.push(("refused_creation_not_a_lock_error".into(), format!("the refused creation reports {e}"))),
+                _ => {}
+            }
+        }
+        res.outcome = Some(o);
+    }
+    // afterwards the lock is free again
+    match d.index.as_ref().unwrap().writer_with_options::<tantivy::TantivyDocument>(writer_options(&cfg)) {
+        Ok(w) => drop(w),
+        Err(e) => res.violations.push(("lock_not_released".into(), format!("after wait_merging_threads returned a new writer is refused: {e:?}"))),
+    }
+    res
+}
+
 fn producers(a: usize, b: usize, point: Option<&Point>) -> RunResult {
     use tantivy::indexer::UserOperation;
     let mut res = RunResult::default();
@@ -1034,6 +1103,7 @@ pub fn points(kind: &Kind, ranges: &BTreeMap<String, (usize, usize)>) -> Vec<Poi
             Kind::OverlappingMerges { .. } => false,
             Kind::MergeVsOpsFault { .. } => tid == "Ufault",
             Kind::Producers { .. } => tid_full == "PA@",
+            Kind::WaitMergingVsNewWriter => tid.starts_with('M'),
             Kind::CommitVsMergeEnd => tid == "U",
             Kind::WriterVsReload => tid != "P",
         };
